@@ -284,7 +284,38 @@ def b(ck: Check) -> None:
           "fallback searches the node's space minus its successors", key="fallback region")
 
 
+def _parallel_results_untouched(ck: Check) -> None:
+    """Between the computation and the two stores the accessor leaves the parallel lists as they are: re-ordering one of
+    them (`result[0].sort(..)`, `seeds = sorted(seeds)`) breaks 'sets[i] is the attractor of seeds[i]'."""
+    prog = ck.prog
+    for q in ("SuccessionDiagram.node_attractor_seeds", "SuccessionDiagram.node_attractor_sets"):
+        fm = prog.fm(SD_MOD, q)
+        f = fm.f
+        held = set()
+        for n in own_walk(f.node):
+            if isinstance(n, ast.Assign) and isinstance(n.value, ast.Call) and callee_name(n.value) in (
+                    "compute_attractors_symbolic", "symbolic_attractor_fallback"):
+                for t in n.targets:
+                    for y in ast.walk(t):
+                        if isinstance(y, ast.Name):
+                            held.add(y.id)
+        probs = []
+        for n in own_walk(f.node):
+            tgt = None
+            if isinstance(n, ast.Call) and isinstance(n.func, ast.Attribute) and n.func.attr in ("sort", "reverse"):
+                tgt = n.func.value
+            elif isinstance(n, ast.Call) and callee_name(n) in ("sorted", "reversed", "shuffle") and n.args:
+                tgt = n.args[0]
+            if tgt is not None and any(isinstance(y, ast.Name) and y.id in held for y in ast.walk(tgt)):
+                probs.append(f"line {n.lineno}: `{text(n)[:60]}` re-orders one of the two parallel result lists on its own")
+        if held:
+            ck.ob("B", fm, f.node, not probs, ("; ".join(probs) + ": seeds and sets are cached as parallel lists, so sets[i] is no "
+                  "longer the attractor of seeds[i]") if probs else "computed seeds and sets are stored in the order they were computed",
+                  key=f"{f.name}: result order")
+
+
 def c(ck: Check) -> None:
+    _parallel_results_untouched(ck)
     prog = ck.prog
     fm = prog.fm(SD_MOD, "SuccessionDiagram.node_attractor_sets")
     f = fm.f
